@@ -190,6 +190,9 @@ func c14Run(run *ev.Run) {
 		}
 		m := o.model(c14Monitor(run, spec))
 		m.MaxDepth = depth
+		if run.Tier == "thorough" {
+			m.CheckMerges = -1 // the thorough search fills its time budget without the merge check (quick runs it)
+		}
 		st := seqx.Explore(run, m)
 		total.States += st.States
 		total.Transitions += st.Transitions
